@@ -73,6 +73,7 @@ def check_stream(notes, cols, what):
 
     exp = [fields(n) for n in notes]
     nd = NoteData.from_notes(iter(notes), cols)
+    next(iter(nd), None)  # an abandoned iteration must not disturb later ones
     text = str(nd)
     short = text if len(text) < 300 else text[:300] + "..."
     got = [fields(n) for n in nd]
@@ -183,9 +184,21 @@ def s_stream(draw):
         nmeas = draw(st.integers(1, 4))
         measures = sorted(draw(st.lists(st.integers(0, 11), min_size=nmeas, max_size=nmeas, unique=True)))
         for m in measures:
-            D = draw(st.one_of(st.sampled_from([1, 2, 3, 4, 6, 8, 12, 16, 48]), st.integers(1, 64), st.integers(1, 1000)))
-            k = draw(st.integers(1, 5))
-            cells = draw(st.lists(st.tuples(st.integers(0, 4 * D - 1), st.integers(0, cols - 1)), min_size=1, max_size=k, unique=True))
+            D = draw(st.one_of(st.sampled_from([1, 2, 3, 4, 6, 8, 12, 16, 48]), st.integers(1, 64), st.integers(1, 1000),
+                               st.sampled_from([96, 192, 384, 576, 768, 960, 240, 480, 720, 360, 840, 1000])))
+            k = draw(st.integers(1, 6))
+            if draw(st.booleans()):
+                cells = draw(st.lists(st.tuples(st.integers(0, 4 * D - 1), st.integers(0, cols - 1)), min_size=1, max_size=k, unique=True))
+            else:
+                # divisor-driven: pick each note's denominator among the divisors of D first (so small and large
+                # denominators, dividing and not dividing 192, meet in one measure), then a numerator
+                divs = [d for d in range(1, D + 1) if D % d == 0]
+                cells = set()
+                for _ in range(k):
+                    d = draw(st.sampled_from(divs))
+                    num = draw(st.integers(0, 4 * d - 1))
+                    cells.add((num * (D // d), draw(st.integers(0, cols - 1))))
+                cells = list(cells)
             for i, c in sorted(cells):
                 b = F(4 * m) + F(i, D)
                 spec.append([p, [b.numerator, b.denominator], c, draw(st.sampled_from(N.NOTE_CHARS)), draw(N.keysound)])
